@@ -60,3 +60,25 @@ Proof.
     unfold in_ircmsgs in E. apply String.eqb_eq in E. auto.
   - left. rewrite <- inventory_external. apply filter_In. rewrite E, P. auto.
 Qed.
+
+(* ---- the hypotheses of C06_ctor_line (line-safe prefix, command and tag keys) as an inventory fact ----
+   The keyword constructor asserts only on args.  Every IrcMsg(...) call of src/ and plugins/ passes a string
+   literal as command= and either no prefix=, a literal, or (inside an ircmsgs.py maker) the maker's own `prefix`
+   parameter, and no maker is ever called with a prefix -- EXCEPT the sites below, each reviewed:
+     Autocomplete.doTagmsg  server_tags = {+draft/reply: msgid (server), response: command names}  (tag values: escaped; NUL: finding C06.F47)
+     Debug.sendquote, Owner.ircquote   raw line given by the OWNER (outside the property's quantifier)
+     drivers.parseMsg       incoming line, not sent
+     Irc.feedMsg            prefix=self.prefix on the emulated echo, fed back to the bot, not sent
+     ircmsgs._whois         command=COMMAND, bound to the literals WHOIS / WHOWAS by functools.partial (pinned by t06.py)
+     ircmsgs.dcc            prefix from **kwargs; nobody calls it with one *)
+Definition reviewed_kwctor : list (string * string * string) :=
+  [("plugins/Autocomplete/plugin.py", "Autocomplete.doTagmsg", "server_tags");
+   ("plugins/Debug/plugin.py", "Debug.sendquote", "raw line");
+   ("plugins/Owner/plugin.py", "Owner.ircquote", "raw line");
+   ("src/drivers/__init__.py", "parseMsg", "raw line");
+   ("src/irclib.py", "Irc.feedMsg", "prefix=self.prefix");
+   ("src/ircmsgs.py", "_whois", "command=COMMAND");
+   ("src/ircmsgs.py", "dcc", "prefix=kwargs.get('prefix', '')")]%string.
+
+Lemma kwctor_sites : gen.T06.KWCTOR_ODD = reviewed_kwctor.
+Proof. vm_compute. reflexivity. Qed.
